@@ -47,6 +47,10 @@
 use crate::types::Value;
 use std::borrow::Cow;
 
+/// Largest text LPAD, RPAD, REPEAT and SPACE build. Like MySQL (max_allowed_packet,
+/// 64 MiB by default) a result that would be larger is NULL.
+const MAX_RESULT_BYTES: usize = 64 * 1024 * 1024;
+
 pub fn eval_string_function<'a>(name: &str, args: &[Option<Value<'a>>]) -> Option<Value<'a>> {
     match name {
         "ASCII" => eval_ascii(args),
@@ -296,9 +300,28 @@ fn eval_concat_ws<'a>(args: &[Option<Value<'a>>]) -> Option<Value<'a>> {
     Some(Value::Text(Cow::Owned(parts.join(sep.as_ref()))))
 }
 
+/// `count` characters cycling through the non-empty `pad`, unless they take more than
+/// `max_bytes`.
+fn padding(pad: &str, count: usize, max_bytes: usize) -> Option<String> {
+    // a character is at least one byte
+    if count > max_bytes {
+        return None;
+    }
+    let mut result = String::with_capacity(count);
+    for c in pad.chars().cycle().take(count) {
+        if result.len() + c.len_utf8() > max_bytes {
+            return None;
+        }
+        result.push(c);
+    }
+    Some(result)
+}
+
 fn eval_lpad<'a>(args: &[Option<Value<'a>>]) -> Option<Value<'a>> {
     let text = get_text(args.first()?)?;
-    let target_len = get_int(args.get(1)?)? as usize;
+    let Ok(target_len) = usize::try_from(get_int(args.get(1)?)?) else {
+        return Some(Value::Null);
+    };
     let pad = get_text(args.get(2)?)?;
 
     let char_count = text.chars().count();
@@ -311,13 +334,14 @@ fn eval_lpad<'a>(args: &[Option<Value<'a>>]) -> Option<Value<'a>> {
         return Some(Value::Text(Cow::Owned(text.to_string())));
     }
 
-    let pad_chars: Vec<char> = pad.chars().collect();
     let pad_needed = target_len - char_count;
-    let mut result = String::with_capacity(target_len);
-
-    for i in 0..pad_needed {
-        result.push(pad_chars[i % pad_chars.len()]);
-    }
+    let Some(mut result) = padding(
+        &pad,
+        pad_needed,
+        MAX_RESULT_BYTES.saturating_sub(text.len()),
+    ) else {
+        return Some(Value::Null);
+    };
     result.push_str(&text);
 
     Some(Value::Text(Cow::Owned(result)))
@@ -325,7 +349,9 @@ fn eval_lpad<'a>(args: &[Option<Value<'a>>]) -> Option<Value<'a>> {
 
 fn eval_rpad<'a>(args: &[Option<Value<'a>>]) -> Option<Value<'a>> {
     let text = get_text(args.first()?)?;
-    let target_len = get_int(args.get(1)?)? as usize;
+    let Ok(target_len) = usize::try_from(get_int(args.get(1)?)?) else {
+        return Some(Value::Null);
+    };
     let pad = get_text(args.get(2)?)?;
 
     let char_count = text.chars().count();
@@ -338,13 +364,16 @@ fn eval_rpad<'a>(args: &[Option<Value<'a>>]) -> Option<Value<'a>> {
         return Some(Value::Text(Cow::Owned(text.to_string())));
     }
 
-    let pad_chars: Vec<char> = pad.chars().collect();
     let pad_needed = target_len - char_count;
+    let Some(fill) = padding(
+        &pad,
+        pad_needed,
+        MAX_RESULT_BYTES.saturating_sub(text.len()),
+    ) else {
+        return Some(Value::Null);
+    };
     let mut result = text.to_string();
-
-    for i in 0..pad_needed {
-        result.push(pad_chars[i % pad_chars.len()]);
-    }
+    result.push_str(&fill);
 
     Some(Value::Text(Cow::Owned(result)))
 }
@@ -388,7 +417,13 @@ fn eval_repeat<'a>(args: &[Option<Value<'a>>]) -> Option<Value<'a>> {
         return Some(Value::Text(Cow::Borrowed("")));
     }
 
-    Some(Value::Text(Cow::Owned(text.repeat(count as usize))))
+    let count = usize::try_from(count).unwrap_or(usize::MAX);
+    match text.len().checked_mul(count) {
+        Some(bytes) if bytes <= MAX_RESULT_BYTES => {
+            Some(Value::Text(Cow::Owned(text.repeat(count))))
+        }
+        _ => Some(Value::Null),
+    }
 }
 
 fn eval_space<'a>(args: &[Option<Value<'a>>]) -> Option<Value<'a>> {
@@ -398,7 +433,10 @@ fn eval_space<'a>(args: &[Option<Value<'a>>]) -> Option<Value<'a>> {
         return Some(Value::Text(Cow::Borrowed("")));
     }
 
-    Some(Value::Text(Cow::Owned(" ".repeat(count as usize))))
+    match usize::try_from(count) {
+        Ok(count) if count <= MAX_RESULT_BYTES => Some(Value::Text(Cow::Owned(" ".repeat(count)))),
+        _ => Some(Value::Null),
+    }
 }
 
 fn eval_insert<'a>(args: &[Option<Value<'a>>]) -> Option<Value<'a>> {
@@ -447,7 +485,8 @@ fn eval_format<'a>(args: &[Option<Value<'a>>]) -> Option<Value<'a>> {
         Value::Null => return Some(Value::Null),
         _ => return None,
     };
-    let decimals = get_int(args.get(1)?)?.max(0) as usize;
+    // MySQL formats at most 30 decimals
+    let decimals = get_int(args.get(1)?)?.clamp(0, 30) as usize;
 
     let formatted = format!("{:.prec$}", number, prec = decimals);
     let parts: Vec<&str> = formatted.split('.').collect();
